@@ -41,11 +41,11 @@ S = Suite(
           "random / sparse / smooth sources; order study on uniform and geometric grids, "
           "n in {8,16,32} x {1,2,4}, components with |T|dz^2/Kz <= 0.1 on the coarsest grid",
     rule="closed form: |bin - oracle| <= 1e-9 * max|oracle|, removed bins <= 1e-12 * max; "
-         "order: both error ratios (n:2n, 2n:4n) within [6.5, 9.5]",
+         "order: both error ratios (n:2n, 2n:4n) >= 6.5 (at least third order)",
 )
 
 TOL = 1e-9
-RATIO_LO, RATIO_HI = 6.5, 9.5
+RATIO_LO, RATIO_HI = 6.5, 40.0  # at least third order; a step that expands the propagator further is not a violation
 RES_ORDER = 0.1
 
 
